@@ -219,7 +219,7 @@ type profile struct {
 }
 
 // share of Hyperlane forwardings through a gas paymaster, per profile (8 where not listed)
-var gasHookShare = map[string]int{"C02": 20, "C05": 25, "C11": 30, "C01": 12, "C03": 12, "C14": 12}
+var gasHookShare = map[string]int{"C02": 20, "C05": 40, "C11": 30, "C01": 12, "C03": 12, "C14": 12}
 
 func init() {
 	for k, p := range profiles {
@@ -357,6 +357,10 @@ func (g *gen) genFwd() fwdSpec {
 	}
 	if r.Chance(g.p.pPass) {
 		f.pass = r.Bytes(rng.Pick(r, []int{1, 1, 2, 5, 16, 17, 64, 300}))
+		if g.p.name == "C18" && r.Chance(3) {
+			// far from every limit: a memo beyond the size ibc-go allows a SENDER to put in (the receive path has no such limit)
+			f.pass = r.Bytes(rng.Pick(r, []int{24600, 33000, 33000}))
+		}
 	}
 	return f
 }
@@ -999,8 +1003,8 @@ func (wr *worldRunner) memoTerm(spec *paySpec, ics *world.ICS20) (term string, p
 			}
 		}
 	}
-	if len(ics.Memo) > 8000 {
-		// not rendered for the model (only packets that are not the orbiter's carry such memos: the model must not look at them)
+	if len(ics.Memo) > 8000 && spec == nil {
+		// not rendered for the model (packets that are not the orbiter's: the model must not look at their memos)
 		return `(Err "memo not rendered")`, pl, note
 	}
 	tree, err := scanJSON(ics.Memo)
